@@ -19,8 +19,11 @@ func sortedByPriority(pol [][]string, seq map[string]int) (bool, string) {
 	for i := 1; i < len(pol); i++ {
 		a, e1 := strconv.Atoi(pol[i-1][0])
 		b, e2 := strconv.Atoi(pol[i][0])
-		if e1 != nil || e2 != nil {
-			return true, "" // no order is defined for priorities that do not parse
+		if e1 != nil { // a priority that does not parse sorts after every number
+			a = 1 << 40
+		}
+		if e2 != nil {
+			b = 1 << 40
 		}
 		if a > b {
 			return false, fmt.Sprintf("%v before %v", pol[i-1], pol[i])
